@@ -222,13 +222,18 @@ def run_case(case: Dict[str, Any], ctx) -> None:
         ctx.violation(key + ":result-dtype-differs-from-closed-form", f"split/f/add {ya.dtype}, residual_apply {yb.dtype}, (x + tau*f(x))/sqrt(1+tau^2) {yc.dtype}", case=case)
         return
     mixed = any(l["branch"] == "lowp_tanh" for l in layers)  # a float32 branch term is rounded to float32 wherever it is scaled
+    # rounding differences between the two evaluation orders are amplified by every later branch: by tau * |f'| at most
+    amp = 1.0
+    for t_ in taus:
+        amp *= max(1.0, min(float(t_), 1e3) ** 0.5)
+    amp = min(amp, 1e4)
     err = (ya.detach() - yc.detach()).abs().max().item() / scale
-    if err > (1e-12 if not mixed else 4e-7) * len(layers) * 8:
+    if err > (1e-12 * amp if not mixed else 4e-7) * len(layers) * 8:
         ctx.violation(key + ":output-differs-from-closed-form", f"rel err {err:.2e}", case=case)
     gscale = max(xc.grad.abs().max().item(), 1e-300)
     gerr = (xa.grad - xc.grad).abs().max().item() / gscale
     ctx.count("closed-form:input-grads-compared")
-    if gerr > (1e-11 if not mixed else 4e-7) * len(layers) * 8:
+    if gerr > (1e-11 * amp if not mixed else 4e-7) * len(layers) * 8:
         ctx.violation(key + ":input-gradient-is-not-derivative-of-closed-form", f"rel err {gerr:.2e}", case=case)
     # ---- the same layers evaluated WITHOUT autograd recording (no_grad / inference_mode): same forward values ------------
     if case["seed"] % 3 != 2:
@@ -243,7 +248,7 @@ def run_case(case: Dict[str, Any], ctx) -> None:
         ctx.count("mode:" + mode.__name__ + "-compared")
         for nm, yn in (("split-f-add", ya_n), ("residual_apply", yb_n)):
             errn = (yn - yc.detach()).abs().max().item() / scale
-            if errn > (1e-12 if not mixed else 4e-7) * len(layers) * 8:
+            if errn > (1e-12 * amp if not mixed else 4e-7) * len(layers) * 8:
                 ctx.violation(key + f":{nm}-differs-from-closed-form-under-{mode.__name__}", f"rel err {errn:.2e}", case=case)
                 break
     # residual_apply identical to the explicit sequence
